@@ -6,7 +6,6 @@ From Jade Require Import Base System SystemMonitors.
 Import ListNotations.
 Open Scope N_scope.
 
-Definition isnil {A} (l : list A) : bool := match l with [] => true | _ => false end.
 
 (* An event of a fault-free run, judged in the state in which it occurs: no sbatch failure, no killed
    process, no scheduler error, no cancellation, no stale submitter.lock; a batch ends only when its
